@@ -35,6 +35,26 @@ Definition judge_tu (rec : list Z) : Z :=
   | None => 1
   end.
 
+(* the same record judged without the brute-force oracle, for matrices of any size: a "not TU" answer given together
+   with a requested submatrix must be certified by that submatrix (|det| >= 2, checked with the verified checker);
+   "TU" answers are only required to be well-formed (they are certified through the decomposition tree, C03/C04) *)
+Definition judge_tu_cert (rec : list Z) : Z :=
+  match (cfg <- dlist dZ ;; x <- dmat ;; rc <- dZ ;; v <- dZ ;; h <- dbool ;;
+         sub <- (if h then (rs <- dlist dnat ;; cs <- dlist dnat ;; dret (Some (rs, cs))) else dret None) ;;
+         dend (cfg, x, rc, v, sub)) rec with
+  | Some ((cfg, (m, n, M), rc, v, sub), _) =>
+    if negb (rc =? 0) then 30
+    else if v =? 2 then (if cfg_stopflags cfg then 0 else 31)
+    else if negb ((v =? 0) || (v =? 1)) then 1
+    else if v =? 1 then (match sub with None => 0 | Some _ => 37 end)
+    else if negb (cfg_want_sub cfg) then 0
+    else match sub with
+         | None => 33
+         | Some (rs, cs) => if check_violator m n M rs cs then 0 else 34
+         end
+  | None => 1
+  end.
+
 (* ---------- regularity of 0/1 matrices: signable to a TU matrix ---------- *)
 
 Fixpoint signings_row (r : list Z) : list (list Z) :=
